@@ -34,7 +34,7 @@ func C16(c *fw.Ctx) {
 	k := c.Pick(4, 6)
 	nExh := c.Pick(60, 300)
 	c.Rule(fmt.Sprintf("for each accepted project the canonical value of every accessor is what it returns as the first call on a fresh build; "+
-		"all %d call sequences of length <= %d over the five accessors are run on %d projects (each sequence on a fresh build) and sampled "+
+		"all %d call sequences of length <= %d over the five accessors are run on %d projects (documents of at most 6000 bytes; each sequence on a fresh build) and sampled "+
 		"sequences of length 6 on the remaining accepted corpus/targeted projects; every call must return its canonical bytes; "+
 		"distinct = distinct project bytes; non-trivial = accepted project with all sequences executed", len(allSeqs(k)), k, nExh))
 	pool := c.Pool(false, 0)
@@ -62,8 +62,15 @@ func C16(c *fw.Ctx) {
 			"JSIGHT 0.3\nENUM @e\n  [\"a\", \"b\"]\nTYPE @t\n  {\n    \"k\": \"a\" // {enum: @e}\n  }\nGET /e\n  Query \"k=a\"\n    {\n      \"k\": \"a\" // {enum: @e}\n    }\n  200 @t\n",
 		}
 		// the exhaustive sequence set goes out in slices, so that no single job runs long enough to meet the hang watchdog on a loaded machine
-		const slice = 1500
 		emitExh := func(j *proto.Job) {
+			// every sequence costs one build: the slice shrinks with the size of the document
+			slice := 1500000 / (len(j.Files[j.Root]) + 2000)
+			if slice > 1000 {
+				slice = 1000
+			}
+			if slice < 50 {
+				slice = 50
+			}
 			for k, part := 0, 0; k < len(seqs); k, part = k+slice, part+1 {
 				e := k + slice
 				if e > len(seqs) {
@@ -86,7 +93,7 @@ func C16(c *fw.Ctx) {
 				return
 			}
 			j.ID = label + "/" + j.ID
-			if exh < nExh && (label == "targeted" || strings.Contains(string(j.Files[j.Root]), "regex") || strings.Contains(string(j.Files[j.Root]), "allOf")) {
+			if exh < nExh && len(j.Files[j.Root]) <= 6000 && len(j.Files) == 1 && (label == "targeted" || strings.Contains(string(j.Files[j.Root]), "regex") || strings.Contains(string(j.Files[j.Root]), "allOf")) {
 				exh++
 				emitExh(j)
 				return
